@@ -828,6 +828,10 @@ class PiecewiseExponentialCoalescentGrid(Distribution):
         indices_internals = indices_grid_heights[event_mask_sorted == -1].reshape(
             internal_heights.shape
         )
+        # coalescent times in the same (sorted) order as their piece indices
+        internal_heights = grid_heights_sorted[event_mask_sorted == -1].reshape(
+            internal_heights.shape
+        )
 
         grid0 = torch.cat((torch.zeros(batch_shape + (1,)), grid), -1)
         grid_intervals = grid0[..., 1:] - grid0[..., :-1]
@@ -849,12 +853,16 @@ class PiecewiseExponentialCoalescentGrid(Distribution):
             -1, indices_internals
         ) * (internal_heights - grid0.gather(-1, indices_internals))
 
-        # Integrate 1/N(t) over each interval
-        growth_intervals = growth.gather(-1, indices_grid_heights)
-        grid_heights_growth_exp = torch.exp(grid_heights_sorted * growth_intervals)
+        # Integrate 1/N(t) over each interval. An interval lies in the piece of its
+        # end point: N(t) = N(start of piece) * exp(-growth * (t - start of piece))
+        indices_pieces = indices_grid_heights[..., 1:]
+        growth_intervals = growth.gather(-1, indices_pieces)
+        piece_start = grid0.gather(-1, indices_pieces)
+        pop_size_piece_start = log_pop_size_grid.gather(-1, indices_pieces).exp()
         integral = (
-            grid_heights_growth_exp[..., 1:] - grid_heights_growth_exp[..., :-1]
-        ) / (thetas * growth_intervals[..., 1:])
+            torch.exp(growth_intervals * (grid_heights_sorted[..., 1:] - piece_start))
+            - torch.exp(growth_intervals * (grid_heights_sorted[..., :-1] - piece_start))
+        ) / (pop_size_piece_start * growth_intervals)
 
         return -torch.sum(
             lchoose2 * integral,
